@@ -436,12 +436,19 @@ fn one_step<const UNREAD: usize, const LEN: usize, const TOTAL: usize>(rabin: Ra
 fn pair_check<const UA: usize, const LA: usize, const UB: usize, const LB: usize, const TOTAL: usize, const SHORT_B: u8>(size: usize, min: usize, max: usize) { pair_check_w::<UA, LA, UB, LB, TOTAL, SHORT_B>(6, size, min, max) }
 
 fn pair_check_w<const UA: usize, const LA: usize, const UB: usize, const LB: usize, const TOTAL: usize, const SHORT_B: u8>(window_bits: u32, size: usize, min: usize, max: usize) {
+    pair_check_wd::<UA, LA, UB, LB, TOTAL, SHORT_B>(window_bits, 2, size, min, max)
+}
+
+/// `disturb`: number of symbolic bytes slid through iterator B's hash before the step (a full window of stale bytes
+/// is needed for a leak to survive the prefill, and the window must be >= 8 bytes for a stale byte - shifted up by
+/// window-1 bytes - to be reduced modulo the degree-53 polynomial into the low bits the split mask looks at)
+fn pair_check_wd<const UA: usize, const LA: usize, const UB: usize, const LB: usize, const TOTAL: usize, const SHORT_B: u8>(window_bits: u32, disturb: usize, size: usize, min: usize, max: usize) {
     let rabin = Rabin64::new_with_polynom(window_bits, &POLY);
     let all: [u8; TOTAL] = kani::any();
     let a = one_step::<UA, LA, TOTAL>(rabin.clone(), &all, size, min, max, 0, usize::MAX);
     let mut rb = rabin;
-    rb.slide(kani::any());
-    rb.slide(kani::any());
+    let mut k = 0;
+    while k < disturb { rb.slide(kani::any()); k += 1; }
     let b = one_step::<UB, LB, TOTAL>(rb, &all, size, min, max, SHORT_B, usize::MAX);
     // content-defined: same remaining bytes => same cut, whatever the iterator state and read fragmentation
     assert!(a.none == b.none);
@@ -520,6 +527,24 @@ pub(crate) fn c06_rabin_pair_frag() { pair_check::<0, 76, 5, 71, 76, 1>(64, 64, 
 #[kani::stub(std::backtrace::Backtrace::capture, crate::error::verif_harness::stub_backtrace_capture)]
 #[kani::stub(std::io::Read::read_to_end, crate::chunker::rabin::verif_harness::ReadToEndModel::read_to_end)]
 pub(crate) fn c06_rabin_pair_small() { pair_check_w::<0, 24, 3, 21, 24, 0>(1, 16, 4, 20); }
+
+//@ harness: c06_rabin_pair_w8
+//@ prop: C06
+//@ tier: quick
+//@ timeout: 1800
+//@ mem: 24
+//@ unwindset: calculate_out_table#0=10; calculate_out_table#1=258; calculate_mod_table#0=258; modulo#0=64
+//@ kernel: as c06_rabin_pair_small with an 8-byte window
+//@ bound: polynomial 0x3DA3358B4DC173, Rabin64 with an 8-byte window (the smallest for which a stale byte is reduced modulo the polynomial into the bits the split mask reads), (avg,min,max)=(16,8,20); two iterators over the same 22 symbolic remaining bytes: A = empty look-ahead + 22 stream bytes, fresh hash state; B = 3 look-ahead + 19 stream bytes after a full window (8) of symbolic stale bytes was slid through its hash; full reads
+//@ oracle: as c06_rabin_pair_small
+//@ stub: std::io::Read::read_to_end -> contract model
+//@ assume: ChunkIter invariant between calls: pos <= buf.len()
+//@ outside: as c06_rabin_pair_small
+#[kani::proof]
+#[kani::unwind(30)]
+#[kani::stub(std::backtrace::Backtrace::capture, crate::error::verif_harness::stub_backtrace_capture)]
+#[kani::stub(std::io::Read::read_to_end, crate::chunker::rabin::verif_harness::ReadToEndModel::read_to_end)]
+pub(crate) fn c06_rabin_pair_w8() { pair_check_wd::<0, 22, 3, 19, 22, 0>(3, 8, 16, 8, 20); }
 
 //@ harness: c06_rabin_pair_small_tail
 //@ prop: C06
